@@ -905,12 +905,15 @@ class ConstrainedQuadraticModel(cyConstrainedQuadraticModel):
             {}
 
         """
+        # find the affected discrete constraints before flipping, afterwards
+        # they are not one-hot and therefore not reported as discrete
+        discrete = [label for label in self.discrete
+                    if v in self.constraints[label].lhs.variables]
+
         super().flip_variable(v)
 
-        for label in list(self.discrete):
-            lhs = self.constraints[label].lhs
-            if v in lhs.variables:
-                self.discrete.discard(label)  # no longer a discrete variable
+        for label in discrete:
+            self.discrete.discard(label)  # no longer a discrete variable
 
     @classmethod
     def from_bqm(cls, bqm: BinaryQuadraticModel) -> ConstrainedQuadraticModel:
